@@ -15,8 +15,14 @@ from .shared import expr_role
 REG_OF_FIELD = {"_tasks_running": "R", "_tasks_cancelled": "C", "_tasks_ended": "E"}
 
 
-def cancel_nodes(ctx: Ctx, f: FuncInfo) -> List[Node]:
-    return ctx.nodes(f, lambda n: any(e.kind in ("cancel", "maybe-cancel") for e in ctx.eff.of_node(n)))
+def cancel_nodes(ctx: Ctx, f: FuncInfo, which: str = "any") -> List[Node]:
+    """steps that cancel a task, directly or through a package helper they run; which = any | member (pool tasks) | spawner"""
+    def sel(e) -> bool:
+        if e.kind not in ("cancel", "maybe-cancel"):
+            return False
+        spawner = "_group_meta_tasks_running" in e.path or "_meta_tasks_cancelled" in e.path
+        return which == "any" or (which == "spawner") == spawner
+    return ctx.nodes(f, lambda n: any(sel(e) for e in ctx.trans_effects(n)))
 
 
 def loop_body_always_runs(ctx: Ctx, f: FuncInfo, head: Node, must: List[Node]) -> Tuple[bool, str]:
@@ -297,7 +303,7 @@ def r_group_helper(ctx: Ctx, rule: str):
         g = ctx.an.cfg(f)
         meta = ctx.nodes(f, lambda n: ctx.is_call_to(n, "_cancel_group_meta_tasks"))
         rep.floor(rule, "call of _cancel_group_meta_tasks", len(ctx.distinct_sites(meta)), 1)
-        members = [c for c in cancel_nodes(ctx, f)]
+        members = [c for c in cancel_nodes(ctx, f, "member")]
         rep.floor(rule, "member cancel steps", len(ctx.distinct_sites(members)), 1)
         for c in ctx.distinct_sites(members):
             rep.ob(rule, "spawners are cancelled before the first member task (no new member can start in between)", dominated_by_completion(g, meta, c), node=c)
